@@ -328,3 +328,15 @@ func init() {
 		return m.E.D.Fresh("errmsg", SStr)
 	}
 }
+
+func init() {
+	// logging is dropped by the extraction: every Logger method is a no-op (With/Impl return the logger)
+	for _, meth := range []string{"Info", "Debug", "Error", "Warn"} {
+		invokeModels["cosmossdk.io/log.Logger."+meth] = func(m *Machine, _ *Frame, _ *ssa.CallCommon, a []Val) Val { return &TupleV{} }
+		invokeModels["logger."+meth] = func(m *Machine, _ *Frame, _ *ssa.CallCommon, a []Val) Val { return &TupleV{} }
+	}
+	for _, meth := range []string{"With", "Impl"} {
+		invokeModels["cosmossdk.io/log.Logger."+meth] = func(m *Machine, _ *Frame, _ *ssa.CallCommon, a []Val) Val { return a[0] }
+		invokeModels["logger."+meth] = func(m *Machine, _ *Frame, _ *ssa.CallCommon, a []Val) Val { return a[0] }
+	}
+}
